@@ -561,9 +561,9 @@ func genC17(seed uint64, tier string, outdir string) *Report {
 	rep.Rule = "a case is one input of one exported format function (or one pinned vector); distinct by hash of the printed call; every case is non-trivial: " +
 		"the chain's output is compared with an independent Go implementation, with the Coq definitions, and - for slice arguments - across five memory layouts"
 	g := &c17Gen{rep: rep, r: NewRng(seed*7919 + 17)}
-	mul := 1
+	mul := 2
 	if tier == "thorough" {
-		mul = 12
+		mul = 24
 	}
 	g.pinned()
 	for i := 0; i < 110*mul; i++ {
